@@ -162,9 +162,20 @@ example : let w := w_splinetable_glamfit
     (∀ p ∈ tr, p.1 ∈ w.calls ∧ possible p.1.op p.2 = true) ∧ completes w tr = true ∧ traceOutcome tr = .throws ∧
     execTrace w tr = .failure := by decide
 
-/-- every wrapper whose last statement is not `return 0` ends in a call whose result it returns: a body that runs through
-    all the calls of the wrapper completes -/
-example : ∀ w ∈ wrappers, finalOk w = true := by decide
+/-- The hypothesis `completes` of `C18_body_faithful` holds for every body that gets as far as the wrapper's last call
+    (whatever that call then does): a wrapper whose last statement is not `return 0` ends in a call whose result it
+    returns.  (Bodies that stop earlier stop at a `return`, by the definition of `returnsOn`.) -/
+theorem C18_body_completes :
+    ∀ w ∈ wrappers, ∀ tr : List (Call × Outcome), tr.getLast?.map Prod.fst = w.calls.getLast? → completes w tr = true := by
+  intro w hw tr hl
+  have h2 := List.all_eq_true.mp C18_table_checked2 w hw
+  simp only [wrapperOk2, Bool.and_eq_true] at h2
+  have hne : ∀ w ∈ wrappers, w.calls ≠ [] := by decide
+  exact completes_of_reaches_last h2.2 tr hl (hne w hw)
+
+example : let w := w_splinetable_get_key
+    let tr : List (Call × Outcome) := [(⟨.getAuxValue, true, .returned⟩, .fail)]
+    tr.getLast?.map Prod.fst = w.calls.getLast? ∧ w.finalSucceeds = false ∧ execTrace w tr = .failure := by decide
 
 /-! ### The C machine refines the C++ program -/
 
